@@ -24,7 +24,7 @@ PINNED = [
     "slice_valid_or_error_full_refuted", "range_incl_max_refuted", "with_bounds_beyond_end_refuted",
     "split_empty_pattern_stuck", "size_hint_never_panics", "to_list_exhausted_is_empty", "chars_concat",
     "char_indices_tile", "split_join", "lines_spec", "escape_total", "escape_unicode_value", "escape_overflow_refuted",
-    "format_spec_parse_total", "strip_prefix_spec", "strip_suffix_spec", "repeat_len", "trim_is_end_after_start", "trim_matches_laws", "replace_spec", "replace_empty_pattern_spec", "contains_starts_ends_spec", "continuation_skips_crlf", "format_fill_count", "format_fill_count_refuted",
+    "format_spec_parse_total", "strip_prefix_spec", "strip_suffix_spec", "repeat_len", "trim_is_end_after_start", "trim_matches_laws", "replace_spec", "replace_length_law", "replace_empty_pattern_spec", "contains_starts_ends_spec", "continuation_skips_crlf", "format_fill_count", "format_fill_count_refuted",
 ]
 
 ALPHABET = ["a", "é", "€", "😀", "́", "\r", "\n", " "]
